@@ -768,3 +768,74 @@ Lemma wit_stall_resync :
 Proof.
   cbv zeta. split; [constructor; vm_compute; reflexivity|]. vm_compute. repeat split; reflexivity.
 Qed.
+
+(* ------------------------------------------------------------------ stages / refused close (round 10) *)
+
+Lemma read_loop_staged_faithful : forall maxbuf cfg neg fuel st env i bs,
+  read_loop_staged false false maxbuf cfg neg fuel st env i bs = read_loop maxbuf cfg fuel st env i bs.
+Proof.
+  induction fuel as [|fuel IH]; intros; simpl; [reflexivity|].
+  destruct (read_iter maxbuf cfg st (env i) bs); try reflexivity.
+  now rewrite IH.
+Qed.
+
+Lemma serve_staged_faithful : forall maxbuf cfg neg st env bs,
+  serve_staged false false maxbuf cfg neg st env bs = serve maxbuf cfg st env bs.
+Proof. intros. apply read_loop_staged_faithful. Qed.
+
+(* for every placement of the stages: the frames are dispatched as specified, the loop goes on behind them *)
+Lemma serve_staged_alignment : forall maxbuf cfg neg fs st env rest, Forall frame_wf fs ->
+  serve_staged false false maxbuf cfg neg st env (concat (map frame_bytes fs) ++ rest)
+  = prepend (expected_log maxbuf cfg st env O fs)
+            (serve_from maxbuf cfg (state_after cfg st env O fs) env (length fs) rest).
+Proof. intros. rewrite serve_staged_faithful. now apply serve_alignment. Qed.
+
+(* a CloseConnectionResponse answering this client's CloseConnection, then anything: everything behind it is
+   dispatched as specified, with the state the response left behind *)
+Lemma serve_after_close_response : forall maxbuf cfg neg fs1 ccr fs2 st env,
+  Forall frame_wf (fs1 ++ ccr :: fs2) ->
+  r_log (serve_staged false false maxbuf cfg neg st env (concat (map frame_bytes (fs1 ++ ccr :: fs2))))
+  = expected_log maxbuf cfg st env O (fs1 ++ [ccr])
+    ++ expected_log maxbuf cfg (state_after cfg st env O (fs1 ++ [ccr])) env (length fs1 + 1) fs2.
+Proof.
+  intros. rewrite serve_staged_faithful, serve_whole_stream by assumption. simpl.
+  replace (fs1 ++ ccr :: fs2) with ((fs1 ++ [ccr]) ++ fs2) by (now rewrite <- app_assoc).
+  rewrite expected_log_app. rewrite app_length. simpl. reflexivity.
+Qed.
+
+(* witness: user handlers gated on the ready flag.  A report (type 61, which has a MessageHandler) arrives while the
+   client is negotiating: gated, it is discarded as unhandled — no handler call; as found, the handler is called with
+   exactly its bytes.  Once the client is ready both variants agree. *)
+Lemma wit_gated_handlers_drop_early_message :
+  let cfg := mkConfig (fun t => t =? 61) false reader_initiated in
+  let f := mkFrame 0 2 61 77 [222; 173; 190] in
+  let env := fun _ : nat => mkEnv [] (HRead 3) false in
+  let negotiating := fun _ : nat => true in
+  let ready := fun _ : nat => false in
+  frame_wf f /\
+  map (fun d => (d_handler d, d_discarded d)) (r_log (serve_staged true false 100 cfg negotiating st0 env (frame_bytes f)))
+  = [(None, true)] /\
+  map (fun d => (d_handler d, d_discarded d)) (r_log (serve_staged false false 100 cfg negotiating st0 env (frame_bytes f)))
+  = [(Some (mkCall TypeHandler false [222; 173; 190] 3 false), false)] /\
+  serve_staged true false 100 cfg ready st0 env (frame_bytes f) = serve_staged false false 100 cfg ready st0 env (frame_bytes f).
+Proof.
+  cbv zeta. split; [constructor; vm_compute; reflexivity|]. vm_compute. repeat split; reflexivity.
+Qed.
+
+(* witness: the loop that stops reading at the answer to its CloseConnection.  The reader refuses the close (the status
+   in the payload is not looked at by either loop) and then sends a report: stopping, the report is never dispatched —
+   its bytes are left unread; as found, it reaches its handler. *)
+Lemma wit_stop_at_close_loses_later_messages :
+  let cfg := mkConfig (fun t => t =? 61) false reader_initiated in
+  let ccr := mkFrame 0 1 4 0 [1; 31; 0; 8; 1; 145; 0; 0] in      (* LLRPStatus 401 *)
+  let rep := mkFrame 0 1 61 41 [202; 254] in
+  let env := fun _ : nat => mkEnv [0] (HRead 2) true in
+  let neg := fun _ : nat => false in
+  Forall frame_wf [ccr; rep] /\
+  map d_hdr (r_log (serve_staged false true 100 cfg neg st0 env (concat (map frame_bytes [ccr; rep])))) = [frame_header ccr] /\
+  r_rest (serve_staged false true 100 cfg neg st0 env (concat (map frame_bytes [ccr; rep]))) = frame_bytes rep /\
+  map d_hdr (r_log (serve_staged false false 100 cfg neg st0 env (concat (map frame_bytes [ccr; rep]))))
+  = [frame_header ccr; frame_header rep].
+Proof.
+  cbv zeta. split; [repeat constructor; vm_compute; reflexivity|]. vm_compute. repeat split; reflexivity.
+Qed.
